@@ -140,3 +140,63 @@ func checkEasiest(c *vrun.Ctx, en *easyNets, cs, ex tla.Value, seq uint32) error
 	c.Distinct(fmt.Sprintf("easiest|%s|%s", rec.F("name").Str(), compactStr(ex.F("easiest"))))
 	return nil
 }
+
+// replayWithBlocks connects the history as real blocks (ProcessBlock, proof of
+// work check off) on a fresh chain and asks the exported
+// BlockChain.CalcNextRequiredDifficulty for the candidate timestamps of the
+// state; the expected bits are those of the candidates the specification does
+// not fault for their bits.
+func replayWithBlocks(c *vrun.Ctx, n *netCtx, st tla.State, id uint64) error {
+	p := syntheticParams(n.rec)
+	never := int32(1 << 30)
+	p.BIP0034Height, p.BIP0065Height, p.BIP0066Height = never, never, never
+	dir := filepath.Join(c.Scratch, fmt.Sprintf("db-blocks-%s-%d", n.name, id))
+	db, err := database.Create("ffldb", dir, p.Net)
+	if err != nil {
+		return err
+	}
+	defer func() {
+		db.Close()
+		os.RemoveAll(dir)
+	}()
+	chain, err := blockchain.New(&blockchain.Config{DB: db, ChainParams: p, TimeSource: fixedTime{n.now}})
+	if err != nil {
+		return err
+	}
+	blocks := st["chain"].Seq()
+	prev := *p.GenesisHash
+	rp := map[string]any{"net": n.name, "chain": st["chain"].Go()}
+	for i := 1; i < len(blocks); i++ {
+		blk := coinbaseBlock(prev, int32(i), int64(blocks[i].F("time").Int()), compact(blocks[i].F("bits")), uint32(i))
+		main, orphan, err := chain.ProcessBlock(btcutil.NewBlock(blk), blockchain.BFNoPoWCheck)
+		c.AddEval(1)
+		if err != nil || !main || orphan {
+			cls, _ := errClass(err)
+			if _, isRule := err.(blockchain.RuleError); err != nil && !isRule {
+				return fmt.Errorf("replayWithBlocks: ProcessBlock: %v", err)
+			}
+			c.Violation("process-block:valid-history-refused:"+cls,
+				fmt.Sprintf("ProcessBlock refuses block %d of a history the specification accepts (net %s): %s main=%v orphan=%v", i, n.name, cls, main, orphan), rp)
+			return nil
+		}
+		prev = blk.BlockHash()
+	}
+	if best := chain.BestSnapshot(); int(best.Height) != len(blocks)-1 || best.Bits != compact(blocks[len(blocks)-1].F("bits")) {
+		c.Violation("process-block:tip", fmt.Sprintf("best chain tip %d/%08x after connecting the history, expected height %d", best.Height, best.Bits, len(blocks)-1), rp)
+		return nil
+	}
+	pos := positionClass(n, int32(len(blocks)))
+	for _, pr := range st["expect"].F("probes").Set() {
+		if has(strSet(pr.F("viol")), "bad-diffbits") {
+			continue
+		}
+		t, want := int64(pr.F("t").Int()), compact(pr.F("b"))
+		got, err := chain.CalcNextRequiredDifficulty(time.Unix(t, 0))
+		c.AddEval(1)
+		if err != nil || got != want {
+			c.Violation("calc-next-required:"+pos,
+				fmt.Sprintf("BlockChain.CalcNextRequiredDifficulty(%d) = %08x (err %v), specification %08x (net %s, height %d)", t, got, err, want, n.name, len(blocks)), rp)
+		}
+	}
+	return nil
+}
